@@ -149,4 +149,15 @@ PROPS = {
             "the local failure is injected between two messages (lockstep with the scripted peer); failures in the middle of a store call are not modelled",
         ],
     },
+    "C11": {
+        "lean_modules": ["DocsModel.Props.C11", "DocsModel.Props.C11One"],
+        "trusted_base": COMMON_TRUST + [
+            "the network and the tokio tasks are replaced by the model's scheduler: a connect/accept task is alive from its spawn until the live actor has processed its completion; requests are delivered or lost; the two ends of a session complete independently",
+            "hook H4 (the live actor's coordination handlers called directly on real LiveActor instances with real endpoints; dials recorded instead of performed)",
+        ],
+        "assumptions": [
+            "two nodes and one document (the state is kept per document and per peer, independent of other documents and peers)",
+            "'a session is in progress until either side has finished it' (the property's own definition)",
+        ],
+    },
 }
